@@ -78,7 +78,7 @@ Definition same_set l1 l2 := subset l1 l2 && subset l2 l1.
 
 (* the model of the compiler's report agrees with Program::info() (as sets) *)
 Definition info_check (c : ccase) : bool :=
-  same_set (queries_l (c_prog c)) (c_q c) && same_set (assigns_l (c_prog c)) (c_a c).
+  same_set (query_paths (c_prog c)) (c_q c) && same_set (assigns_l (c_prog c)) (c_a c).
 
 Definition check (c : ccase) : bool :=
   let '(o, s) := run_inst (c_prog c) (mkState [] (c_ev c) (c_md c) [] (c_faults c)) in
